@@ -12,10 +12,10 @@ import (
 
 func init() {
 	props["C09"] = &propCheck{
-		lean: []string{"JSight.Props.C09"},
-		exes: []string{},
-		run:  runC09,
-		rule: "accepted projects: generated documents, the accepted fixture files, byte-level mutants of fixtures and generated documents with hostile names/paths (spaces, quotes, non-ASCII, invalid UTF-8); every accepted one is serialised and read back with a strict (duplicate-key-detecting, UTF-8-validating) JSON reader; non-trivial = accepted with >= 2 interactions; distinct = distinct input bytes",
+		lean:    []string{"JSight.Props.C09"},
+		exes:    []string{},
+		run:     runC09,
+		rule:    "accepted projects: generated documents, the accepted fixture files, byte-level mutants of fixtures and generated documents with hostile names/paths (spaces, quotes, non-ASCII, invalid UTF-8); every accepted one is serialised and read back with a strict (duplicate-key-detecting, UTF-8-validating) JSON reader; non-trivial = accepted with >= 2 interactions; distinct = distinct input bytes",
 		assume:  []string{"encoding/json produces valid JSON text for the values handed to it (trusted); the check reads that text back strictly"},
 		trusted: []string{"modelled, not verified: encoding/json (escaping, UTF-8 coercion, MarshalIndent)"},
 	}
